@@ -20,13 +20,15 @@ REL = {"eq": lambda a, b: a == b, "ne": lambda a, b: a != b, "lt": lambda a, b: 
 PYREL = {"eq": lambda a, b: a == b, "ne": lambda a, b: a != b, "lt": lambda a, b: a < b, "gt": lambda a, b: a > b,
          "le": lambda a, b: a <= b, "ge": lambda a, b: a >= b}
 KINDS = ("int", "cal", "float")            # IntParameter(v) / FloatParameter(r, raw=v) / FloatParameter(r)
+# a fourth kind, used by the single-comparison and history harnesses: "bool" = BoolParameter(bool(v), raw=v) (derived value 0 / 1, raw value v)
+KINDS4 = KINDS + ("bool",)
 LITERALS = ("0", "5", "-2", "2.5", "abc")
 
 META = {
     "level": "model_checking",
     "claim": "With the referenced parameters' values and raw values symbolic (integers in [-2^15, 2^15), reals unconstrained; zero, negative and "
              "integer-versus-float operand pairs are therefore ordinary assignments), z3 proves for every operator spelling (16), both value "
-             "selectors, three parameter kinds and a listed set of literals that the real Comparison/Condition.evaluate return exactly the "
+             "selectors, four parameter kinds (integer, calibrated float, float, boolean) and a listed set of literals that the real Comparison/Condition.evaluate return exactly the "
              "truth value of the mathematical relation (or an error when the literal cannot be read in the value's type), for every "
              "BooleanExpression tree shape up to 4 leaves / depth 3 (thorough: 5 leaves) that evaluation equals the recursive AND/OR of the "
              "leaf relations, that one Comparison / Condition object evaluated on two packets in a row (the parameter being of a different kind in each) is right both times, that comparison lists are conjunctions, and that discrete lookups return the value of the first entry whose "
@@ -68,6 +70,9 @@ class Params:
                 self.packet[name] = lib.common.IntParameter(bv.SymInt(v, nb=16))
             elif k == "cal":
                 self.packet[name] = lib.common.FloatParameter(bv.SymReal(r), lib.common.IntParameter(bv.SymInt(v, nb=16)))
+            elif k == "bool":
+                raw = bv.SymInt(v, nb=16)
+                self.packet[name] = lib.common.BoolParameter(bool(raw), raw)
             else:
                 self.packet[name] = lib.common.FloatParameter(bv.SymReal(r))
 
@@ -78,6 +83,9 @@ class Params:
             return "int", self.v[i]
         if k == "cal":
             return ("real", self.r[i]) if calibrated else ("int", self.v[i])
+        if k == "bool":
+            W = bv.W
+            return ("int", z3.If(self.v[i] != 0, z3.BitVecVal(1, W), z3.BitVecVal(0, W))) if calibrated else ("int", self.v[i])
         return "real", self.r[i]
 
     def inputs(self):
@@ -142,13 +150,13 @@ class ComparisonH(Harness):
     def run(self, ctx):
         lib = self.lib
         spellings = list(OPS)
-        cfg = choose(ctx, "cfg", len(spellings) * 2 * len(KINDS) * len(LITERALS) * 2)
+        cfg = choose(ctx, "cfg", len(spellings) * 2 * len(KINDS4) * len(LITERALS) * 2)
         sp = spellings[cfg % len(spellings)]
         cfg //= len(spellings)
         cal = bool(cfg % 2)
         cfg //= 2
-        kind = KINDS[cfg % 3]
-        cfg //= 3
+        kind = KINDS4[cfg % 4]
+        cfg //= 4
         lit = LITERALS[cfg % len(LITERALS)]
         cfg //= len(LITERALS)
         in_packet = bool(cfg % 2)          # False: the parameter is not in the packet, compared against the current raw value
@@ -158,7 +166,7 @@ class ComparisonH(Harness):
         if in_packet:
             sel = P.selected(0, cal)
         else:
-            if kind == "int":
+            if kind in ("int", "bool"):
                 cur = lib.common.IntParameter(bv.SymInt(P.v[0], nb=16))
                 sel = ("int", P.v[0])
             else:
@@ -186,14 +194,14 @@ class HistoryH(Harness):
 
     def run(self, ctx):
         lib = self.lib
-        cfg = choose(ctx, "cfg", len(HIST_OPS) * 2 * 9 * 3 * 2)
+        cfg = choose(ctx, "cfg", len(HIST_OPS) * 2 * 16 * 3 * 2)
         sp = HIST_OPS[cfg % len(HIST_OPS)]
         cfg //= len(HIST_OPS)
         cal = bool(cfg % 2)
         cfg //= 2
-        k1, k2 = KINDS[cfg % 3], KINDS[(cfg // 3) % 3]
-        cfg //= 9
-        lit = ("5", "0", "-2")[cfg % 3]
+        k1, k2 = KINDS4[cfg % 4], KINDS4[(cfg // 4) % 4]
+        cfg //= 16
+        lit = ("1", "0", "-2")[cfg % 3]
         cfg //= 3
         what = ("comparison", "condition")[cfg % 2]
         P = Params(ctx, lib, (k1, k2))
@@ -419,6 +427,8 @@ def _mkpacket(i):
             pkt[f"P{n}"] = common.IntParameter(v)
         elif k == "cal":
             pkt[f"P{n}"] = common.FloatParameter(r, common.IntParameter(v))
+        elif k == "bool":
+            pkt[f"P{n}"] = common.BoolParameter(bool(v), v)
         else:
             pkt[f"P{n}"] = common.FloatParameter(r)
         vals.append((v, r))
@@ -446,7 +456,7 @@ def concrete(req):
         comp = C.Comparison(i["lit"], "P0" if i["in_packet"] else "OTHER", operator=i["op"], use_calibrated_value=i["cal"])
         cur = None
         if not i["in_packet"]:
-            cur = common.IntParameter(vals[0][0]) if i["kinds"][0] == "int" else common.FloatParameter(vals[0][1])
+            cur = common.IntParameter(vals[0][0]) if i["kinds"][0] in ("int", "bool") else common.FloatParameter(vals[0][1])
         import warnings
         with warnings.catch_warnings():
             warnings.simplefilter("ignore")
@@ -483,6 +493,8 @@ def _tuple(x):
 
 def _sel(i, n, cal):
     k = i["kinds"][n]
+    if k == "bool":
+        return int, (int(i[f"v{n}"] != 0) if cal else i[f"v{n}"])
     if k == "int" or (k == "cal" and not cal):
         return int, i[f"v{n}"]
     return float, _frac(i[f"r{n}"])
@@ -510,7 +522,7 @@ def judge(req, got):
         if i["in_packet"]:
             t, a = _sel(i, 0, i["cal"])
         else:
-            t, a = (int, i["v0"]) if i["kinds"][0] == "int" else (float, _frac(i["r0"]))
+            t, a = (int, i["v0"]) if i["kinds"][0] in ("int", "bool") else (float, _frac(i["r0"]))
         try:
             b = lit(t, i["lit"])
         except ValueError:
